@@ -201,7 +201,9 @@ impl Session {
         let sender = self.sender.as_mut().unwrap();
         match guarded(AssertUnwindSafe(|| sender.add_object(0, obj))) {
             Err(loc) => {
-                o.fail("add-panic", &format!("add_object panics at {}", loc));
+                if loc.contains("toiallocator") {
+                    o.fail("alloc-panic", &format!("add_object panics at {}", loc));
+                }
                 self.dead = true;
                 self.leak();
                 "PANIC".to_string()
@@ -222,41 +224,51 @@ impl Session {
         }
     }
 
-    /// read packets until `stop` says so or the sender has nothing more; returns object packets seen
-    fn pump(&mut self, first_only: bool, o: &mut Oracle) -> Vec<(bool, u128, u8, u8, Vec<u8>)> {
+    /// Read packets until the first object packet (`first_only`) or until the sender has nothing more.
+    /// Returns the object packets seen.  `expect` = TOIs of the objects that are being transferred.
+    /// Err(reason): something the harness relies on but C15 does not speak about went wrong (reported as
+    /// an `ERR …` observation, i.e. a disagreement with the model, not as a property violation).
+    fn pump(
+        &mut self,
+        first_only: bool,
+        expect: &BTreeSet<u128>,
+        o: &mut Oracle,
+    ) -> Result<Vec<(bool, u128, u8, u8, Vec<u8>)>, String> {
         let mut out = Vec::new();
-        let expect = self.cur.and_then(|k| self.objs.get(&k).cloned());
         for _ in 0..100_000 {
             let sender = self.sender.as_mut().unwrap();
             let data = match sender.read(now()) {
                 Some(d) => d,
-                None => return out,
+                None => return Ok(out),
             };
             match pkt_toi(&data) {
-                None => o.fail("pkt-unparsable", "a packet produced by Sender::read is rejected by parse_alc_pkt"),
+                None => return Err("pkt-unparsable".to_string()),
                 Some(p) => {
                     if p.0 {
                         if p.1 != 0 {
                             o.fail("fdt-pkt-toi", &format!("FDT packet carries TOI {}", p.1));
                         }
                     } else {
-                        // an object packet: the only object in transfer is `cur`
-                        if Some(p.1) != expect {
+                        // an object packet: must carry the TOI of an object in transfer
+                        if !expect.contains(&p.1) {
                             o.fail(
                                 "wire-ne-allocated",
-                                &format!("object packet carries TOI {} but the object's TOI is {:?}", p.1, expect),
+                                &format!("object packet carries TOI {} but the TOIs of the objects in transfer are {:?}", p.1, expect),
                             );
                         }
                         out.push(p);
                         if first_only {
-                            return out;
+                            return Ok(out);
                         }
                     }
                 }
             }
         }
-        o.fail("read-unbounded", "Sender::read did not run dry within 100000 packets");
-        out
+        Err("read-unbounded".to_string())
+    }
+
+    fn cur_toi(&self) -> BTreeSet<u128> {
+        self.cur.and_then(|k| self.objs.get(&k).cloned()).into_iter().collect()
     }
 }
 
@@ -504,37 +516,83 @@ impl Session {
                 let toi = self.objs[&k];
                 let s = self.sender.as_mut().unwrap();
                 if s.publish(now()).is_err() || !s.trigger_transfer_at(toi, Some(now())) {
-                    o.fail("start-refused", "publish / trigger_transfer_at failed for an object in the FDT");
-                    return "ERR".to_string();
+                    return "ERR start-refused".to_string();
                 }
                 self.cur = Some(k);
                 self.cur_in_fdt = true;
-                let p = self.pump(true, o);
-                match p.first() {
-                    Some(p) => wire_line(p),
-                    None => {
-                        o.fail("no-packet", "a published, triggered object produced no packet");
-                        "ERR".to_string()
-                    }
+                let expect = self.cur_toi();
+                match self.pump(true, &expect, o) {
+                    Err(e) => format!("ERR {}", e),
+                    Ok(p) => match p.first() {
+                        Some(p) => wire_line(p),
+                        None => "ERR no-packet".to_string(),
+                    },
                 }
             }
             ("drain", 2) => {
-                let p = self.pump(false, o);
+                let expect = self.cur_toi();
+                let p = match self.pump(false, &expect, o) {
+                    Ok(p) => p,
+                    Err(e) => return format!("ERR {}", e),
+                };
                 let mut seen: Vec<u128> = p.iter().map(|x| x.1).collect();
                 seen.sort();
                 seen.dedup();
                 if let Some(k) = self.cur.take() {
                     self.objs.remove(&k);
                     self.cur_in_fdt = false;
-                    if seen.is_empty() {
-                        o.fail("no-packet", "the rest of a two-packet object produced no packet");
-                    }
                 }
                 if seen.is_empty() {
                     "done -".to_string()
                 } else {
                     format!("done {}", seen.iter().map(|x| x.to_string()).collect::<Vec<_>>().join(" "))
                 }
+            }
+            ("freerun", 3) => {
+                // n objects without TOI, eligible at once, default multiplexing (3 sessions): add, publish,
+                // read until the sender runs dry; all n transfers complete and all n TOIs are released
+                let n = match num(2) {
+                    Some(n) if n >= 1 && n <= 16 && self.cur.is_none() => n,
+                    _ => return "bad-op".to_string(),
+                };
+                let mut tois = BTreeSet::new();
+                for _ in 0..n {
+                    let live = self.live();
+                    let mut obj = self.object(false, None);
+                    obj.config.transfer_start_time = None;
+                    let sender = self.sender.as_mut().unwrap();
+                    match guarded(AssertUnwindSafe(|| sender.add_object(0, obj))) {
+                        Ok(Ok(v)) => {
+                            self.check_fresh(v, &live, o);
+                            if !tois.insert(v) {
+                                o.fail("toi-dup-live", &format!("add_object returned TOI {} twice in a row", v));
+                            }
+                            // live until its transfer is over
+                            self.objs.insert(3_000_000 + tois.len() as u64, v);
+                        }
+                        Ok(Err(_)) => return "ERR add".to_string(),
+                        Err(loc) => {
+                            if loc.contains("toiallocator") {
+                                o.fail("alloc-panic", &format!("add_object panics at {}", loc));
+                            }
+                            self.dead = true;
+                            self.leak();
+                            return "PANIC".to_string();
+                        }
+                    }
+                }
+                if self.sender.as_mut().unwrap().publish(now()).is_err() {
+                    return "ERR publish".to_string();
+                }
+                let p = match self.pump(false, &tois, o) {
+                    Ok(p) => p,
+                    Err(e) => return format!("ERR {}", e),
+                };
+                for i in 1..=tois.len() as u64 {
+                    self.objs.remove(&(3_000_000 + i));
+                }
+                let seen: BTreeSet<u128> = p.iter().map(|x| x.1).collect();
+                format!("sent {}", seen.iter().map(|x| x.to_string()).collect::<Vec<_>>().join(" "))
             }
             ("fdt", 2) => {
                 let xml = match self.sender.as_ref().unwrap().fdt_xml_data(now()) {
@@ -643,6 +701,9 @@ impl Session {
 
 type Reply = (String, Vec<(String, String)>);
 
+/// calls into flute that never returned during this run (each leaves a spinning thread behind)
+static HANGS: AtomicU64 = AtomicU64::new(0);
+
 pub struct ToiEngine {
     tx: Option<ChanTx<String>>,
     rx: Option<Receiver<Reply>>,
@@ -671,7 +732,17 @@ impl Engine for ToiEngine {
             let mut s = Session::new(lc);
             while let Ok(op) = srx.recv() {
                 let mut o = Oracle::default();
-                let obs = s.exec(&op, &mut o);
+                let obs = match guarded(AssertUnwindSafe(|| s.exec(&op, &mut o))) {
+                    Ok(obs) => obs,
+                    Err(loc) => {
+                        // a panic inside flute outside the calls that are guarded individually
+                        if loc.contains("toiallocator") {
+                            o.fail("alloc-panic", &format!("the sender panics at {}", loc));
+                        }
+                        s.dead = true;
+                        "PANIC".to_string()
+                    }
+                };
                 if stx.send((obs, o.fails)).is_err() {
                     break;
                 }
@@ -696,7 +767,7 @@ impl Engine for ToiEngine {
             self.bits = t[2].parse().unwrap_or(0);
         }
         let long = t.len() >= 2 && (t[1] == "churn" || t[1] == "allocn");
-        let timeout = Duration::from_secs(if long { 60 } else { 15 });
+        let timeout = Duration::from_secs(if long { 30 } else { 10 });
         if self.tx.as_ref().unwrap().send(op.to_string()).is_err() {
             self.dead = true;
             return "DEAD".to_string();
@@ -710,6 +781,7 @@ impl Engine for ToiEngine {
             }
             Err(RecvTimeoutError::Timeout) => {
                 self.dead = true;
+                HANGS.fetch_add(1, Ordering::SeqCst);
                 let live = self.live_count.load(Ordering::SeqCst);
                 if self.bits == 16 && live == 65534 {
                     // exactly the excluded case of `allocate_terminates`: this call takes the last free value
@@ -727,7 +799,6 @@ impl Engine for ToiEngine {
             }
             Err(RecvTimeoutError::Disconnected) => {
                 self.dead = true;
-                o.fail("session-died", "the session thread died outside a guarded call");
                 "PANIC".to_string()
             }
         }
@@ -788,6 +859,7 @@ fn sequence(ctx: &mut Ctx, eng: &mut dyn Engine, rng: &mut Rng, bits: u32, init:
     let mut next_name = 1u64;
     let mut kinds = BTreeSet::new();
     let mut allocs = 0;
+    let mut total_allocated: u64 = 0; // incl. churn: after 2^bits - 1 every allocation is a re-allocation
     for _ in 0..nops {
         let r = rng.below(100);
         let op = if r < 22 {
@@ -824,6 +896,11 @@ fn sequence(ctx: &mut Ctx, eng: &mut dyn Engine, rng: &mut Rng, bits: u32, init:
                 objs.push(k);
                 format!("toi addx {} {}", k, h)
             }
+        } else if r < 72 && cur.is_some() && rng.chance(1, 4) {
+            // remove the object in transfer (possibly a second time: remove_object then returns false)
+            let k = cur.unwrap();
+            objs.retain(|x| *x != k);
+            format!("toi remove {}", k)
         } else if r < 72 && !objs.is_empty() {
             let k = objs.swap_remove(rng.below(objs.len() as u64) as usize);
             format!("toi remove {}", k)
@@ -835,8 +912,10 @@ fn sequence(ctx: &mut Ctx, eng: &mut dyn Engine, rng: &mut Rng, bits: u32, init:
             let k = cur.take().unwrap();
             objs.retain(|x| *x != k);
             "toi drain".to_string()
-        } else if r < 96 {
+        } else if r < 94 {
             "toi fdt".to_string()
+        } else if r < 96 && cur.is_none() {
+            format!("toi freerun {}", rng.range(1, 7))
         } else if bits == 16 && rng.chance(1, 3) {
             // go (almost) once around the 16-bit circle so that `next` catches up with live values
             format!("toi churn {}", rng.range(60000, 65600))
@@ -847,8 +926,22 @@ fn sequence(ctx: &mut Ctx, eng: &mut dyn Engine, rng: &mut Rng, bits: u32, init:
         let kind = op.split(' ').nth(1).unwrap_or("").to_string();
         ctx.count(&format!("op={}", kind));
         kinds.insert(kind);
-        if obs.starts_with("toi ") {
+        if obs.starts_with("toi ") && !op.starts_with("toi addx") {
             allocs += 1;
+            total_allocated += 1;
+            if bits == 16 && total_allocated >= 65535 {
+                ctx.count("re-allocation-after-full-circle(16bit)");
+            }
+        }
+        if op.starts_with("toi churn ") && obs.starts_with("ok ") {
+            let n: u64 = op[10..].parse().unwrap_or(0);
+            total_allocated += n;
+            if n >= 60000 {
+                ctx.count("churn-around-the-circle(16bit)");
+            }
+        }
+        if op.starts_with("toi freerun ") && obs.starts_with("sent ") {
+            total_allocated += op[12..].parse::<u64>().unwrap_or(0);
         }
         if obs == "PANIC" || obs == "HANG" || obs == "DEAD" {
             ctx.count("ended-by-panic-or-hang");
@@ -896,8 +989,8 @@ fn wire_cases(ctx: &mut Ctx, eng: &mut dyn Engine, rng: &mut Rng, n: usize) {
 
 pub fn run(ctx: &mut Ctx, eng: &mut dyn Engine) {
     ctx.rule = "histories of allocate_toi / drop (same thread, other thread, concurrent) / add_object with and without \
-                explicit TOI (accepted and refused) / remove_object / transfer start / transfer completion / churn \
-                (allocate+drop n times; for 16 bit once around the circle) of up to 300 operations on a real Sender, \
+                explicit TOI (accepted and refused) / remove_object / transfer start / transfer completion / freerun (n objects multiplexed to completion) / churn \
+                (allocate+drop n times; for 16 bit once around the circle so that released values come back and live ones are skipped) of up to 300 operations on a real Sender, \
                 x 6 TOI widths x start values {1, 0, max-1, max, max+1, 2*max+1, u128::MAX, None (random) x2, random in range, \
                 random 128 bit}; every returned TOI, the TOI field (flags and bytes) of the object's packets, the FDT TOI \
                 attributes and the remove results are compared with the Lean model; oracle = the clauses of C15 on the \
@@ -906,9 +999,15 @@ pub fn run(ctx: &mut Ctx, eng: &mut dyn Engine) {
         .to_string();
     let mut rng = Rng::new(ctx.seed);
     let reps = if ctx.tier_thorough { 12 } else { 2 };
-    for rep in 0..reps {
+    'gen: for rep in 0..reps {
         for bits in WIDTHS {
             for (i, init) in start_values(bits, &mut rng).into_iter().enumerate() {
+                if HANGS.load(Ordering::SeqCst) >= 2 {
+                    // every hang is already reported (VIOLATION) and leaves a spinning thread behind:
+                    // stop generating histories instead of collecting time-outs
+                    ctx.count("generation-stopped-after-2-hangs");
+                    break 'gen;
+                }
                 let nops = if rep == 0 { 300 } else { rng.range(5, 300) as usize };
                 let id = format!("seq-w{}-s{}-r{}", bits, i, rep);
                 sequence(ctx, eng, &mut rng, bits, init, nops, &id);
